@@ -372,6 +372,90 @@ fn raw_and_multipart(ctx: &Ctx, srv: &LiveServer<zoo9::ZooCtx>, cn: &Cn, samples
     }
 }
 
+// ------------------------------------------------------------------ TLS slice: handshake order vs accept order
+
+fn perms(n: usize) -> Vec<Vec<usize>> {
+    fn rec(cur: &mut Vec<usize>, used: &mut Vec<bool>, n: usize, out: &mut Vec<Vec<usize>>) {
+        if cur.len() == n {
+            out.push(cur.clone());
+            return;
+        }
+        for i in 0..n {
+            if !used[i] {
+                used[i] = true;
+                cur.push(i);
+                rec(cur, used, n, out);
+                cur.pop();
+                used[i] = false;
+            }
+        }
+    }
+    let mut out = vec![];
+    rec(&mut vec![], &mut vec![false; n], n, &mut out);
+    out
+}
+
+/// K connections are TCP-accepted in order 0..K; their TLS handshakes complete in every order;
+/// then each sends a request: the request context must report each connection's own peer address.
+fn tls_slice(ctx: &Ctx, k: usize, cn: &Cn, samples: &Samples) -> Value {
+    let id = vh::tls::self_signed();
+    let ccfg = id.client_config();
+    let mut histories = 0u64;
+    for perm in perms(k) {
+        histories += 1;
+        let srv = match LiveServer::start(zoo9::api(&[]), zoo9::ZooCtx::default(), ServerOpts { tls: Some(id.server_config()), default_body_max: 4096, ..Default::default() }) {
+            Ok(s) => s,
+            Err(e) => {
+                eprintln!("machinery: tls server: {e}");
+                continue;
+            }
+        };
+        let case = json!({"kind":"history","world": {"transport": "tls", "connections": k}, "events": {"tcp_accept_order": (0..k).collect::<Vec<_>>(), "tls_handshake_order": perm}});
+        let mut conns = vec![];
+        for _ in 0..k {
+            match vh::tls::TlsConn::connect(srv.addr, &ccfg) {
+                Ok(c) => conns.push(c),
+                Err(e) => {
+                    eprintln!("machinery: tls connect: {e}");
+                    return json!({"error": e.to_string()});
+                }
+            }
+            std::thread::sleep(Duration::from_millis(3));
+        }
+        for &i in &perm {
+            if let Err(e) = conns[i].handshake(T) {
+                ctx.report(Violation { sig: json!({"kind":"tls_handshake_failed"}), case: case.clone(), expected: json!("handshake completes"), observed: json!(e) });
+                return json!({"error": "handshake"});
+            }
+            std::thread::sleep(Duration::from_millis(2));
+        }
+        // requests in the reverse of the handshake order
+        for &i in perm.iter().rev() {
+            cn.requests.fetch_add(1, Ordering::Relaxed);
+            let uri = format!("/ctx/t{i}?m=q{i}");
+            let req = request("PUT", &uri, &format!("content-type: application/json\r\nx-marker: h{i}\r\n"), format!("{{\"m\":\"b{i}\"}}").as_bytes());
+            let local = conns[i].local.to_string();
+            match conns[i].roundtrip(&req, T) {
+                Ok(resp) => {
+                    let ok = resp.status == 200 && resp.json().map(|j| j["remote_addr"] == json!(local) && j["path_marker"] == json!(format!("t{i}")) && j["query_marker"] == json!(format!("q{i}"))
+                        && j["body_marker"] == json!(format!("b{i}")) && j["marker_header"] == json!(format!("h{i}"))).unwrap_or(false);
+                    if !ok {
+                        ctx.report(Violation {
+                            sig: json!({"kind":"request_context_differs","transport":"tls","handshake_order_equals_accept_order": perm.iter().enumerate().all(|(a, b)| a == *b)}),
+                            case: case.clone(),
+                            expected: json!({"connection": i, "remote_addr": local}),
+                            observed: resp.to_json(),
+                        });
+                    }
+                    samples.offer(|| json!({"tls_handshake_order": perm, "connection": i, "remote_addr_reported": resp.json().map(|j| j["remote_addr"].clone())}));
+                }
+                Err(e) => ctx.report(Violation { sig: json!({"kind":"no_response","carrier":"tls"}), case: case.clone(), expected: json!("200"), observed: json!(e) }),
+            }
+        }
+    }
+    json!({"connections": k, "handshake_orders": histories})
+}
+
 // ------------------------------------------------------------------ schedules: concurrent + pipelined requests (E3)
 
 mod sched {
@@ -586,6 +670,7 @@ fn main() {
         }
     });
     raw_and_multipart(&ctx, &srv, &cn, &samples);
+    let tls = vec![tls_slice(&ctx, 3, &cn, &samples), if ctx.tier == Tier::Thorough { tls_slice(&ctx, 4, &cn, &samples) } else { json!(null) }];
     // every request reached its handler exactly once (no handler ran for a refused one)
     let entered = srv.server().app_private().total();
 
@@ -611,6 +696,7 @@ fn main() {
         "distinct_nontrivial": cn.nontrivial.load(Ordering::Relaxed),
         "rule": "values: strings (every Latin-1 code point, first/last scalar of every plane, the reserved set, each alone and between two letters; thorough: every Unicode scalar value) in 4 carriers (path segment, query value, JSON body, url-encoded body) with hex-case / needless-encoding / '+' / \\u-escape variants; integer extremes of every width incl. 128-bit; float extremes bit-exact; booleans, enum variants, chars, Option present/absent, Vec of 0-3, wildcard paths; content-type spellings; framings (content-length, every composition of the body into <=3 chunks, trailers, chunk extensions, HTTP/1.0); raw 0..255 bodies buffered and streaming; multipart with 7 boundary spellings; request-context echo. Oracle: response body == serde_json serialisation of the value the client encoded (byte-exact). schedules: every interleaving of send / release-gate / read over 2-3 connections with up to 3 pipelined requests, each request carrying distinct markers in path, query, header and body. distinct_nontrivial = value cases whose request contains an escape or a non-ASCII byte, or a non-trivial framing, and that were delivered intact.",
         "value_cases": n, "by_carrier": *cn.by_carrier.lock().unwrap(), "handler_invocations_counted": entered,
+        "tls_slice": tls,
         "schedules": sched_info, "schedule_events": sched_events.load(Ordering::Relaxed),
         "caps_hit": caps, "exhaustive": caps.is_empty(),
         "samples": samples.take(),
